@@ -72,7 +72,10 @@ func VerifC11Rounds() {
 		if verifapi.Bool(fmt.Sprint("r", r, ".unknown")) {
 			list = append(list, string(unknown))
 		}
+		// other requests are served meanwhile: the keep-alive's transaction may conflict (and be retried)
+		verifapi.KVStorm(verifapi.Param("conflict_storm", 0))
 		inactive, err := d.UpdateNodePeers(x, list, uint64(r))
+		verifapi.KVStorm(0)
 		verifapi.Assert(err == nil, "c11.registered-node-no-error")
 		deadline := now.Add(-store.ExpireInterval)
 		count := func(id store.NodeID) int {
